@@ -76,6 +76,12 @@ func (l *LiquidOnChain) CreateOpeningTransaction(swapParams *swap.OpeningParams)
 	if err != nil {
 		return "", "", "", 0, 0, err
 	}
+	// The wallet decides where the swap output ends up (elementsd inserts the
+	// change output at a random position): look it up in the funded tx.
+	vout, err = l.VoutFromTxHex(txHex, redeemScript)
+	if err != nil {
+		return "", "", "", 0, 0, err
+	}
 	return txHex, blindedScriptAddr, txId, fee, vout, nil
 }
 
